@@ -206,3 +206,54 @@ def table_interior_keys(data, root, u):
             walk(rm, d + 1)
     walk(root, 1)
     return keys
+
+
+def table_leaf_edges(data, root, u):
+    """first and last rowid of every leaf of a table b-tree"""
+    edges = []
+    def walk(n, d):
+        if d > 40:
+            return
+        t, nc, rm, cells = page_info(data, n, u)
+        pg = read_page(data, n, u)
+        if t == 5:
+            for c in cells:
+                walk(struct.unpack(">I", pg[c:c + 4])[0], d + 1)
+            walk(rm, d + 1)
+        elif t == 13 and cells:
+            for c in (cells[0], cells[-1]):
+                l = get_varint(pg[c:c + 9])
+                k = get_varint(pg[c + l[1]:c + l[1] + 9])
+                edges.append(k[0])
+    walk(root, 1)
+    return edges
+
+
+def leaf_sizes(data, root, u):
+    """number of entries of every page in traversal order: [(page, kind, ncells)]"""
+    out = []
+    def walk(n, d):
+        if d > 40:
+            return
+        t, nc, rm, cells = page_info(data, n, u)
+        pg = read_page(data, n, u)
+        if t in (2, 5):
+            for c in cells:
+                walk(struct.unpack(">I", pg[c:c + 4])[0], d + 1)
+                out.append((n, "interior-entry", 1 if t == 2 else 0))
+            walk(rm, d + 1)
+        else:
+            out.append((n, "leaf", nc))
+    walk(root, 1)
+    return out
+
+
+def overflow_pages(data, u):
+    """page numbers that are neither b-tree pages reachable from sqlite_master
+    nor page 1: approximated as 'first byte not a b-tree type' (used only to
+    pick fault targets)"""
+    res = []
+    for n in range(2, len(data) // u + 1):
+        if data[(n - 1) * u] not in (2, 5, 10, 13):
+            res.append(n)
+    return res
